@@ -1620,7 +1620,7 @@ class Exec:
                 return True
             k_ = an.index(n_)
             return isinstance(args[k_], tuple) and sym.ptr_split(args[k_])[0] in self.extents
-        if name in ("std::fill", "std::copy"):
+        if name in ("std::fill", "std::copy", "std::reverse_copy"):
             if not (ptr(an[0]) and ptr(an[1])):
                 return False
             (pa, oa), (pb, ob) = sym.ptr_split(args[0]), sym.ptr_split(args[1])
@@ -1631,13 +1631,15 @@ class Exec:
             if not ptr(an[0]):
                 return False
             count = args[1]
-        if name in ("std::copy", "std::copy_n") and not ptr(an[2]):
+        if name in ("std::copy", "std::copy_n", "std::reverse_copy") and not ptr(an[2]):
             return False
         Exec.serial += 1
         u = sym.sym("u%d@%d" % (Exec.serial, e["l"]))
         first = args[0]
         if name in ("std::fill", "std::fill_n"):
             st = {"e": "store", "lv": sym.idx(first, u), "op": "=", "val": args[2], "l": e["l"], "t": "", "ct": ""}
+        elif name == "std::reverse_copy":
+            st = {"e": "store", "lv": sym.idx(args[2], u), "op": "=", "val": sym.idx(first, sym.sub(sym.sub(count, I(1)), u)), "l": e["l"], "t": "", "ct": ""}
         else:
             st = {"e": "store", "lv": sym.idx(args[2], u), "op": "=", "val": sym.idx(first, u), "l": e["l"], "t": "", "ct": ""}
         out.append({"e": "loop", "var": u, "lo": ZERO, "cmp": "<", "hi": self._clamp(count), "step": I(1), "body": [st], "l": e["l"],
@@ -1689,7 +1691,7 @@ class Exec:
         if name in ("std::transform", "std::generate_n", "std::generate", "std::for_each") and self._std_functor_algorithm(e, name, args, out):
             Exec.serial += 1
             return ("unk", "%s-result:%d" % (name, Exec.serial))
-        if name in ("std::fill", "std::fill_n", "std::copy", "std::copy_n") and self._std_algorithm(e, name, args, out):
+        if name in ("std::fill", "std::fill_n", "std::copy", "std::copy_n", "std::reverse_copy") and self._std_algorithm(e, name, args, out):
             if name == "std::fill":
                 return None
             Exec.serial += 1
